@@ -15,6 +15,7 @@ package rdb
 
 import (
 	"sync"
+	"sync/atomic"
 
 	rocksdb "github.com/facebookincubator/dns/dnsrocks/cgo-rocksdb"
 )
@@ -25,7 +26,7 @@ const NumberOfIterators int = 15
 // IteratorPool allows RDB interators reuse. Iterator creation is happen to be pretty costly operation
 type IteratorPool struct {
 	iterators      chan iteratorPoolEntry
-	enabled        bool
+	enabled        int32 // 0 or 1; read by get() without the lock, hence accessed atomically
 	createIterator func() *rocksdb.Iterator
 	l              sync.Mutex
 }
@@ -44,7 +45,7 @@ func newIteratorPool(createIterator func() *rocksdb.Iterator) *IteratorPool {
 }
 
 func (pool *IteratorPool) get() iteratorPoolEntry {
-	if !pool.enabled {
+	if atomic.LoadInt32(&pool.enabled) == 0 {
 		return iteratorPoolEntry{iterator: pool.createIterator(), free: true}
 	}
 
@@ -64,11 +65,11 @@ func (pool *IteratorPool) put(e iteratorPoolEntry) {
 func (pool *IteratorPool) disable() {
 	pool.l.Lock()
 	defer pool.l.Unlock()
-	if !pool.enabled {
+	if atomic.LoadInt32(&pool.enabled) == 0 {
 		return
 	}
 
-	pool.enabled = false
+	atomic.StoreInt32(&pool.enabled, 0)
 
 	for i := 0; i < NumberOfIterators; i++ {
 		e := <-pool.iterators
@@ -80,7 +81,7 @@ func (pool *IteratorPool) enable() {
 	pool.l.Lock()
 	defer pool.l.Unlock()
 
-	if pool.enabled {
+	if atomic.LoadInt32(&pool.enabled) == 1 {
 		return
 	}
 
@@ -90,5 +91,5 @@ func (pool *IteratorPool) enable() {
 		pool.iterators <- entry
 	}
 
-	pool.enabled = true
+	atomic.StoreInt32(&pool.enabled, 1)
 }
